@@ -91,18 +91,24 @@ def run(ctx):
     for fault in (None, "NO", "BYE", "SILENT"):
         for tlsok in (True, False):
             for cap in (True, False):
-                for post in (None, b"LOGIN", b"", b"GSSAPI", False, b"PLAIN-CLIENTTOKEN GSSAPI", b"XLOGIN-TOKEN X-PLAIN-SUBMIT"):
-                    variants.append((fault, tlsok, cap, post))
-    for fault, tlsok, cap, post in variants:
+                for post in (None, b"LOGIN", b"", b"GSSAPI", False, b"PLAIN-CLIENTTOKEN GSSAPI", b"XLOGIN-TOKEN X-PLAIN-SUBMIT", b"OAUTHBEARER"):
+                    variants.append((fault, tlsok, cap, post, None))
+    # a mechanism named by the caller is subject to the same rule: it must be announced on the channel the credentials go over
+    for post in (None, b"LOGIN", b"", b"GSSAPI", False, b"OAUTHBEARER", b"PLAIN LOGIN"):
+        for mech in ("PLAIN", "LOGIN", "OAUTHBEARER"):
+            variants.append((None, True, True, post, mech))
+    for fault, tlsok, cap, post, mech in variants:
         srv = refserver.RefServer(r, starttls=cap, sasl=b"PLAIN", post_tls_sasl=post, faults=({"STARTTLS": fault} if fault else {}))
         s = msref.Session()
         g = srv.greeting()
-        out = s.connect(b"", [], "user", "pw", starttls=True, server=srv, tlsok=tlsok)
-        record(["c op=new", msref.req_connect(g, [], "user", "pw", starttls=True, tlsok=tlsok, later=list(s.wire.segments))], ["ok", out])
+        out = s.connect(b"", [], "user", "pw", starttls=True, mech=mech, server=srv, tlsok=tlsok)
+        record(["c op=new", msref.req_connect(g, [], "user", "pw", starttls=True, mech=mech, tlsok=tlsok, later=list(s.wire.segments))], ["ok", out])
         evals += 1
         nontriv += 1
         probs = check_writes(s.wire.writes, True, srv.authed)
-        should_succeed = fault is None and tlsok and cap and post in (None, b"LOGIN")
+        announced = (b"PLAIN" if post is None else (post or b"")).decode().split()
+        usable = [m for m in ("PLAIN", "LOGIN", "OAUTHBEARER") if m in announced] if mech is None else [m for m in (mech,) if m in announced]
+        should_succeed = fault is None and tlsok and cap and bool(usable)
         if should_succeed and "res=b1" not in out:
             probs.append("connect should succeed: %s" % out[:80])
         if not should_succeed and "res=b1" in out:
@@ -111,10 +117,10 @@ def run(ctx):
             probs.append("credentials sent although the TLS handshake did not complete")
         if any("unannounced mechanism" in l for l in srv.log):
             probs.append("AUTHENTICATE with a mechanism the server did not announce after the handshake: %r" % srv.log)
-        if should_succeed and post == b"LOGIN" and getattr(srv, "auth_attempt", (None,))[0] != "LOGIN":
+        if should_succeed and post == b"LOGIN" and mech is None and getattr(srv, "auth_attempt", (None,))[0] != "LOGIN":
             probs.append("mechanism not taken from the post-TLS capabilities (server announced LOGIN after TLS): %r" % (getattr(srv, "auth_attempt", None),))
         for p in probs:
-            viol.append({"history": "starttls fault=%s tlsok=%s cap=%s post=%r" % (fault, tlsok, cap, post), "what": p})
+            viol.append({"history": "starttls fault=%s tlsok=%s cap=%s post=%r authmech=%r" % (fault, tlsok, cap, post, mech), "what": p})
         if len(samples) < 2:
             samples.append({"history": "connect(starttls=True) fault=%s tlsok=%s" % (fault, tlsok), "writes": [(t, b[:30].decode("latin-1")) for t, b in s.wire.writes]})
 
